@@ -217,8 +217,12 @@ def update_resource_class(req):  # noqa
     context = req.environ['placement.context']
     context.can(policies.UPDATE)
 
-    # Use JSON validation to validation resource class name.
-    util.extract_json('{"name": "%s"}' % name, schema.PUT_RC_SCHEMA_V1_2)
+    # Use JSON validation to validation resource class name. The name is
+    # serialized properly so that what is validated is the name itself, not
+    # whatever it happens to decode to when pasted into a JSON document
+    # (an escape such as \u0041, or a quote followed by further keys).
+    util.extract_json(
+        jsonutils.dumps({'name': name}), schema.PUT_RC_SCHEMA_V1_2)
 
     status = 204
     try:
